@@ -97,6 +97,21 @@ def count_rule(facts, rep, rule="C09-COUNT", only=None):
                       "no inner transfer: the whole buffer is consumed and its length reported",
                       "adapter without an inner read/write must consume all of buf and report buf.len(); returns %s" % [show(a)[:60] for a in rets])
             continue
+        # the adapter's own state moves only after the wrapped transfer has answered: a counter that is advanced before a fallible
+        # read (and put right again on the success path only) is wrong after every failed or interrupted read -- a retried read then
+        # sees "no data left" and the end-of-data check (MAC, CRC) is skipped
+        if kind == "read":
+            ib = [bi for bi, t in inner]
+            early = []
+            for b2, si2, s2 in f.stmts():
+                if s2["k"] != "assign" or not s2["place"]["p"] or f.blocks[b2].get("cleanup"):
+                    continue
+                pp = s2["place"]["p"]
+                if s2["place"]["l"] == 1 and pp[0]["k"] == "deref" and any(q["k"] == "field" for q in pp):
+                    if not any(f.dominates(b_, b2) for b_ in ib):
+                        early.append(".".join(str(q.get("n")) for q in pp if q["k"] == "field"))
+            okall &= bool(rep.check(not early, rule, key0 + ":state-moves-after-inner-read", w0, "no field of the adapter is assigned before the wrapped read returned",
+                                    "self.%s is updated before the wrapped reader was asked: after a failed or interrupted read the adapter's accounting is off" % sorted(set(early))[:2]))
         # n = Ok payload of each inner call
         n_exprs = []
         inner_calls = []
